@@ -83,23 +83,27 @@ CHECKS["C17"] = dict(
         "verifier's evaluation depends on every family. Numerical equality with the definition is not decided.",
    design_ref="DESIGN.md §3 C17")
 CHECKS["C07"] = dict(
-   technique="static analysis: exact integer arithmetic on constants extracted from the compiled crates (Lucas primality proof, orders), MUST-GUARDS for modulus decisions with comparison width, MIR lint for normalisation and canonical serialisation, interval abstract interpretation with case splits for the representation range",
+   technique="static analysis: exact integer arithmetic on constants extracted from the compiled crates (Lucas primality proof, orders), MUST-GUARDS for modulus decisions with comparison width, MIR lint for normalisation and canonical serialisation, interval abstract interpretation with case splits for the representation range, abstract interpretation in the domain of exact integer-linear forms with quotient/remainder atoms (E5b) for the carry/borrow logic",
    text="Static proof per field that the published constants satisfy their defining equations (modulus proved prime, two-adicity, orders of "
         "root of unity and generator, Montgomery constants), that every checked conversion and the deserializer reject exactly the values >= M "
         "of their own field before any truncation on every accepting path, that the [0,2M) field tests raw values only after normalisation and "
         "returns normalised integers, that serialisation is canonical, and (REPR) that the representation range is inductive: assuming every "
         "incoming element is in range (f62: [0,2M); f64: canonical [0,M)), every element constructed by new/add/sub/mul/neg/double/mul_small/"
         "inv/conversions is in range for all inputs (interval analysis with exact case splits; for f64 the range of mont_red_cst/var is an "
-        "assumption). Agreement of the arithmetic VALUES with integer arithmetic mod p is not decided (bit-vector carry logic).",
+        "assumption). (ARITH) For add, sub, neg, double in all three fields, f62's Montgomery mul/square/new/as_int, f64's mul_small and f128's new, "
+        "the stored integer is congruent modulo p to the integer operation on the operands on every carry/borrow path, for all operands in the "
+        "representation range (exact linear forms; 16 operations). Not decided: f64 mul (mont_red_cst), f128 mul, inv, exp.",
    note="Assumption (f64 REPR): mont_red_cst / mont_red_var return values in [0, M).",
    design_ref="DESIGN.md §3 C07")
 CHECKS["C11"] = dict(
-   technique="static analysis: control-dependence of the zero-copy byte view on IS_CANONICAL, monotone-counter rule with sibling cross-check, exact arithmetic on constant tables, data/control dependence of the capacity element on the input length",
+   technique="static analysis: control-dependence of the zero-copy byte view on IS_CANONICAL, monotone-counter rule with sibling cross-check, exact arithmetic on constant tables, data/control dependence of the capacity element on the input length, abstract interpretation in the domain of exact integer-linear forms (E5b) for the frequency-domain MDS product",
    text="Static proof that byte-oriented element hashing reinterprets memory only for canonical representations, that all Rescue byte sponges "
         "detect the last chunk with a counter that is never reset in the loop, that MDS x INV_MDS = I, ALPHA x INV_ALPHA = 1 mod p-1 and the "
         "tables have the documented shape (circulant where the frequency-domain product is used), and that every sponge entry writes a "
-        "length-dependent value into a fixed capacity position. Equality with the reference permutations and the carry logic of the fast MDS "
-        "reduction are not decided.",
+        "length-dependent value into a fixed capacity position, and (FAST) that mds_multiply for the 12x12 and 8x8 matrices stores, for every input "
+        "state and on every carry case of its final reduction, values congruent modulo p to the product with the hasher's MDS table (limb split, "
+        "real FFTs, Hadamard blocks and inverse FFTs without overflow included). Equality with the reference permutations beyond the MDS layer "
+        "(round constants, S-box exponents) is not decided.",
    design_ref="DESIGN.md §3 C11")
 CHECKS["C12"] = dict(
    technique="static analysis: token-grammar extraction from the MIR of every write_into/read_from pair with path-set comparison; limit agreement between constructor assertions, writer casts and reader decisions",
